@@ -30,7 +30,7 @@ ASSUMPTIONS = [
 ]
 TOLERANCES = {"matrix-entries": "1e-9 * product of factor norms", "inverse": "1e-9 * cond(M)", "point": "1e-9 * scale"}
 MANDATORY_LABELS = {
-    "quick": ["fn:matrix/6", "fn:translate/1", "fn:translate/2", "fn:scale/1", "fn:scale/2", "fn:rotate/1", "fn:rotate/3", "fn:skew/1", "fn:skew/2", "fn:skewx/1", "fn:skewy/1", "fn:translatex/1", "fn:translatey/1", "fn:scalex/1", "fn:scaley/1", "unit:grad", "unit:rad", "unit:turn", "unit:deg"],
+    "quick": ["fn:matrix/6", "fn:translate/1", "fn:translate/2", "fn:scale/1", "fn:scale/2", "fn:rotate/1", "fn:rotate/3", "fn:skew/1", "fn:skew/2", "fn:skewx/1", "fn:skewy/1", "fn:translatex/1", "fn:translatey/1", "fn:scalex/1", "fn:scaley/1", "unit:grad", "unit:rad", "unit:turn", "unit:deg", "unit-case:mixed"],
 }
 MANDATORY_LABELS["thorough"] = MANDATORY_LABELS["quick"] + ["unit:in", "unit:pt", "unit:pc", "unit:mm", "unit:cm"]
 
@@ -39,6 +39,14 @@ LENGTH_UNITS = ["", "", "px", "pt", "pc", "", "px", "pt", "", "in", "mm", "cm", 
 NAMES = ["matrix", "translate", "translate", "translateX", "translateY", "scale", "scale", "scaleX", "scaleY", "rotate", "rotate", "skew", "skewX", "skewY"]
 
 PX_PER = {"": Fraction(1), "px": Fraction(1), "pt": Fraction(4, 3), "pc": Fraction(16)}
+
+
+def unit_case(d, unit):
+    """CSS units are case-insensitive: spell them lower, UPPER, Title or swapped"""
+    if not unit or not d.chance(3, 8):
+        return unit
+    k = d.below(3)
+    return unit.upper() if k == 0 else unit.capitalize() if k == 1 else "".join(c.upper() if i % 2 else c for i, c in enumerate(unit))
 
 
 def angle_text(d, deg, unit):
@@ -51,7 +59,7 @@ def angle_text(d, deg, unit):
         v = math.radians(deg)
     else:
         v = deg / 360.0
-    return "%s%s" % (repr(gen.r6(v)) if not float(gen.r6(v)).is_integer() else str(int(gen.r6(v))), unit)
+    return "%s%s" % (repr(gen.r6(v)) if not float(gen.r6(v)).is_integer() else str(int(gen.r6(v))), unit_case(d, unit))
 
 
 def num_text(d, v):
@@ -84,11 +92,11 @@ def decode_string(d):
             args = [num_text(d, v) for v in m]
         elif low == "translate":
             u = d.choice(LENGTH_UNITS)
-            args = [num_text(d, small(d)) + u]
+            args = [num_text(d, small(d)) + unit_case(d, u)]
             if d.bool():
-                args.append(num_text(d, small(d)) + (u if d.bool() else d.choice(LENGTH_UNITS)))
+                args.append(num_text(d, small(d)) + unit_case(d, u if d.bool() else d.choice(LENGTH_UNITS)))
         elif low in ("translatex", "translatey"):
-            args = [num_text(d, small(d)) + d.choice(LENGTH_UNITS)]
+            args = [num_text(d, small(d)) + unit_case(d, d.choice(LENGTH_UNITS))]
         elif low == "scale":
             s = d.choice([1.0, 2.0, 0.5, -1.0, 3.0, -2.0, 0.1]) if d.bool() else gen.loguniform(d, -2.0, 2.0)
             args = [num_text(d, s)]
@@ -171,6 +179,16 @@ def parts(tier):
 
 
 # ---- reference -------------------------------------------------------------------------------------------
+
+
+def unit_of(tok):
+    """lower-cased unit suffix of a number token ('1E3' has none, '1e3Em' has 'em')"""
+    i = len(tok)
+    while i > 0 and tok[i - 1].isalpha():
+        i -= 1
+    suffix = tok[i:]
+    # a trailing exponent marker belongs to the number only if digits follow it - they do not, here
+    return suffix.lower()
 
 
 def parse_angle(tok):
@@ -273,16 +291,18 @@ def check(case):
     for name, args in funcs:
         o.label("fn:%s/%d" % (name.lower(), len(args)))
         for a in args:
-            u = a.lstrip("+-0123456789.eE")
+            u = unit_of(a)
             if u:
                 units.add(u)
                 o.label("unit:%s" % u)
+                if a[-len(u):] != u:
+                    o.label("unit-case:mixed")
     want, norm = denote(funcs, ppi)
     fams = set()
     for name, args in funcs:
         if name.lower().startswith("translate"):
             for a in args:
-                u = a.lstrip("+-0123456789.eE")
+                u = unit_of(a)
                 if float(a[: len(a) - len(u)]) != 0.0:
                     fams.add("inch" if u in ("in", "mm", "cm") else "px")
     if "inch" in fams:
